@@ -8,7 +8,7 @@ from concurrent.futures import ProcessPoolExecutor
 from sa.check import load, run_rules, apply_edit
 from sa.core import SourceTree, REPO, VIOLATION, UNRECOGNISED, MISSING
 
-PROPS = ["C01", "C02", "C03", "C04", "C05", "C06", "C07", "C09", "C10", "C11", "C12", "C13", "C14", "C15", "C16", "C17", "C18", "C19", "C20"]
+PROPS = ["C01", "C02", "C03", "C04", "C05", "C06", "C07", "C08", "C09", "C10", "C11", "C12", "C13", "C14", "C15", "C16", "C17", "C18", "C19", "C20"]
 
 
 def job(a):
